@@ -449,7 +449,7 @@ def run(chk, R, tier, seed):
             cases.append(term_case(chk, rng, "harness", it))
     chk.exhaustive["terms of length <= 2 over 12 elements, exponents -2..2"] \
         = (stride == 1)
-    n = 1500 if tier == "quick" else 60000
+    n = 4000 if tier == "quick" else 60000
     for i in range(n):
         pool = "harness" if i % 2 == 0 else "units"
         names = hnames if pool == "harness" else unames
